@@ -1,8 +1,37 @@
 """Per-property claims rendered into MANIFEST.json by tools/mkmanifest.py."""
 HOOK_COMMITS = []   # no source hooks needed so far
-FIX_COMMITS = ["c62ee59 fix: pool parent loop leaves only when the done queue is drained (C12)"]
+FIX_COMMITS = ["1bcbbe1 fix: rewrite logic sends the new line ... (C01)", "28efb2a fix: file mode builds the patch from the complete diff (C16)", "c62ee59 fix: pool parent loop leaves only when the done queue is drained (C12)"]
 PENDING = {}
 CLAIMS = {
+    "C01": {
+        "technique": "TLA+ device model (Device.tla) + rule language + TLC-enumerated Configs(R) of a TLA+ rulebook catalogue replayed into _diff_and_patch; real command paths executed on the spec's device by a TLC trace judge, chains and second diff fed back from TLC's state",
+        "text": "For every catalogue rulebook (literals, *, ~, nesting, %global, %ordered, %rewrite, undo_redo/permanent/ignore_changes, catch-all, near-miss negation words) and vendor profile, "
+                "TLC enumerates Configs(R); all (or sampled) pairs go through the production composition; the P-layer device executes the real command paths one by one and must converge "
+                "(contract-aware); the second diff/patch on the spec's device state must be empty, and a further target is applied from that state (chains).",
+        "note": "Trusted: TLC, tree/row lexers. Device model assumptions in DESIGN.md 2.2 (one line per rule and key; value-carrying rows are leaves; a re-sent block has one %rewrite rule). "
+                "A-layer MC of the patch algorithm not yet wired (a_layer: absent): design-level claim rests on the sketches. Block-structured vendors only.",
+    },
+    "C03": {
+        "technique": "TLA+ P-layer of diffs (Differ.tla: projections, exact ops, unchanged, MOVED clause, rewrite group semantics) + offside parser on the two text views; TLC-enumerated Configs(R) pairs replayed into make_diff; TLC trace judge",
+        "text": "Every real diff over all/sampled pairs of TLC-enumerated configurations (plus shuffled / unknown-row perturbations) per catalogue rulebook and vendor profile is judged: both inputs "
+                "reconstructible, ops exact, unchanged exactly where subtrees are equal, MOVED iff predecessor sequence changed, self-diff empty, strip_unchanged exact, formatter.diff and "
+                "gen_pre_as_diff(make_pre()) parse back (offside rule) to the same signed entries.",
+        "note": "Standard diff logics only. %rewrite groups that did not change are reported not at all (documented semantics, encoded in Faithful). A-layer MC of base_diff not yet wired.",
+    },
+    "C09": {
+        "technique": "TLA+ session spec (DeploySession.tla: flattening with vendor exit words, wrapper discipline, deploy-rule chains) + TLC-enumerated patch trees replayed into formatter.patch / cmd_paths / apply_deploy_rulebook; TLC trace judge",
+        "text": "All patch trees with distinct sibling rows (depth<=2,width<=2 over a vendor-special alphabet) are enumerated by TLC (model invariant: shown lines determine the paths) and run for every "
+                "block-structured vendor/hardware and commit/finalize flags with shipped and synthetic deploy rulebooks (scratch rulebook dir); PatchTrees from real make_patch over the catalogue, the corpus, "
+                "assembled corpus blocks and rows synthesised from shipped rule lines are added. Judge: shown == cmd_paths == body of the sent stream in order and depth, only wrapper commands added, "
+                "no commit when disabled, (timeout, answers) of the matching rule chain.",
+        "note": "Wrapper vocabulary is a table of the spec. Flattening vendors excluded (not in the property's quantifier). Known finding: equal sibling commands collapse in cmd_paths.",
+    },
+    "C16": {
+        "technique": "TLC trace judge of equality between the two front ends (FrontEnds.tla) over corpus, cross products and assembled trees",
+        "text": "The law is an equality between two outputs of the implementation; TLC judges cmd_paths(file) == cmd_paths(device) and file diff == strip_unchanged(device diff), with the position of the "
+                "first difference, over the 192-sample corpus in both directions, per-vendor cross products and trees assembled from corpus blocks, on the shipped rulebooks.",
+        "note": "Thin TLA+ content by nature (stated in DESIGN.md): no model of the stages is needed to decide an equality of two implementation outputs. File workers on disk not yet driven.",
+    },
     "C12": {
         "technique": "TLA+ spec of the pool (Pool.tla, one action per primitive), TLC exhaustive MC incl. liveness + TLC-simulated schedules replayed into the real Parallel.irun through a turn-based scheduler + event traces of the real code validated by a trace spec",
         "text": "TLC explores every interleaving of parent loop x workers x task/done queues for N<=3 (thorough N<=5), quotas, raising tasks and both tolerate_fails modes: "
